@@ -8,9 +8,9 @@ from harness.impl import c07impl as I
 
 IMPORTS = "From Ford Require Import Base.Str Sem.Scope Corr.C07."
 THEOREMS = ["C07_types_and_procedures", "C07_partial", "C07_model_characterised", "C07_refuted_abs_over_proc",
-            "C07_statement_refuted", "C07_fixed_proc_shadow", "C07_fixed_sibling_leak", "C07_unresolved_stays_text",
-            "C07_example_hypotheses"]
-REGION_KEYS = {1: "abstract-interface-does-not-shadow-host-procedure"}
+            "C07_refuted_sub_shadow", "C07_statement_refuted", "C07_fixed_proc_shadow", "C07_fixed_sibling_leak",
+            "C07_unresolved_stays_text", "C07_example_hypotheses", "C07_example_submodules"]
+REGION_KEYS = {1: "abstract-interface-does-not-shadow-host-procedure", 16: "submodule-declaration-does-not-shadow-host"}
 
 
 def coq_slot(d):
@@ -31,8 +31,9 @@ def coq_obs(obs):
                    for p, d, e in obs)
 
 
-def coq_case(units, u, obs):
-    return "(%s,\n  %s)" % (G.coq_unit(units, u), coq_obs(obs))
+def coq_case(prog, u, obs):
+    evs = G.coq_submodule(prog, u) if u["kind"] == "submodule" else G.coq_unit(prog["units"], u)
+    return "(%s,\n  %s)" % (evs, coq_obs(obs))
 
 
 # ----------------------------------------------------------------------------- fixed programs
@@ -62,6 +63,28 @@ def witness_abs_over_proc():
     return {"units": [sc("m", "module", procs=[sc("x", "subroutine"), a])], "submodules": []}
 
 
+def witness_sub_shadow():
+    """module m: type t; submodule (m) s1: its own type t and type(t) :: v"""
+    m = sc("m", "module", types=[ty("t")])
+    s1 = sc("s1", "submodule", types=[ty("t")], vars=[var("v", "type", "t")])
+    s1.update({"ancestor": "m", "parent": None})
+    return {"units": [m], "submodules": [s1]}
+
+
+def witness_sub_chain():
+    """lib: type u.  module m: types t, u.  submodule (m) s1: use lib, only: u.  submodule (m:s1) s2 refers
+    to t (m's), u (lib's, through s1's USE) and to s1's procedure"""
+    lib = sc("lib", "module", types=[ty("u")])
+    m = sc("m", "module", types=[ty("t"), ty("u")], procs=[sc("helper", "subroutine")])
+    s1 = sc("s1", "submodule", uses=[{"target": "lib", "only": [["u", "u"]]}], procs=[sc("local1", "subroutine")],
+            vars=[var("v1", "type", "t"), var("v2", "type", "u")])
+    s1.update({"ancestor": "m", "parent": None})
+    s2 = sc("s2", "submodule", vars=[var("x1", "type", "t"), var("x2", "type", "u"), var("x3", "proc", "helper"),
+                                     var("x4", "proc", "local1"), var("x5", "type", "nosuch_t")])
+    s2.update({"ancestor": "M", "parent": "S1"})
+    return {"units": [lib, m], "submodules": [s1, s2]}
+
+
 def witness_sibling_leak():
     """module m: subroutine a declares type t; sibling b and the module itself declare type(t) variables"""
     a = sc("a", "subroutine", types=[ty("t")], vars=[var("x", "type", "t")])
@@ -79,7 +102,8 @@ def witness_local_overrides_host():
 
 def fixed_programs():
     out = [("witness:proc_shadow", witness_proc_shadow()), ("witness:sibling_leak", witness_sibling_leak()),
-           ("witness:abs_over_proc", witness_abs_over_proc()),
+           ("witness:abs_over_proc", witness_abs_over_proc()), ("witness:sub_shadow", witness_sub_shadow()),
+           ("fixed:sub_chain", witness_sub_chain()),
            ("witness:local_overrides_host", witness_local_overrides_host())]
     # every slot kind once, unique names, two modules, an external procedure, undeclared names
     ma = sc("ma", "module",
@@ -138,6 +162,11 @@ class Runner:
             return
         for u in prog["units"]:
             self.cases.append((label, prog, u, files, obs[u["name"].lower()]))
+        for sm in prog["submodules"]:
+            # a submodule is judged together with the units whose dictionaries it inherits
+            chain = G.host_chain(prog, sm)
+            o = [x for h in chain for x in obs[h["name"].lower()]] + obs[sm["name"].lower()]
+            self.cases.append((label, prog, G.sub_scope(sm), files, o))
         for s in subs:
             self.subs.append((label, prog, files, s))
 
@@ -146,7 +175,7 @@ class Runner:
         stats = {"units": len(self.cases), "slots": sum(len(c[4]) for c in self.cases), "model_mismatch": 0,
                  "spec_violation_in_region": 0, "spec_violation_outside": 0, "regions": {}, "not_legal_spec_skipped": 0,
                  "resolved_slots": sum(1 for c in self.cases for o in c[4] if o[2] is not None)}
-        terms = [coq_case(p["units"], u, obs) for _, p, u, _, obs in self.cases]
+        terms = [coq_case(p, u, obs) for _, p, u, _, obs in self.cases]
         res = chk.coq_judge(IMPORTS, "case", "judge", terms, shard=max(8, len(terms) // 16 + 1))
         if res is None:
             return stats
@@ -154,7 +183,7 @@ class Runner:
         stats["region_free_agreeing_with_spec"] = len(terms) - len(res)
         for j, code in sorted(res.items(), key=lambda jc: (not (jc[1] & 2), jc[0])):
             label, prog, u, files, obs = self.cases[j]
-            region = (code >> 2) & 1
+            region = ((code >> 2) & 1) | (((code >> 6) & 1) << 4)
             deviates = (code >> 5) & 1
             if (code >> 3) & 1:
                 stats["not_legal_spec_skipped"] += 1
@@ -169,7 +198,8 @@ class Runner:
                        "meaning": "bit0 model!=impl, bit1 impl differs from the Spec on a slot where the model agrees with "
                                   "the Spec, bits>=2: 1 region (an inner abstract interface hides an outer procedure), "
                                   "2 not a legal unit (Spec not asked), 4 projection not well formed, 8 impl differs "
-                                  "from the Spec somewhere"}
+                                  "from the Spec somewhere, 16 region (a submodule's own declaration named like an entity "
+                                  "of its host)"}
             if code & 2:
                 chk.disagreements += 1
                 stats["spec_violation_outside"] += 1
@@ -313,6 +343,8 @@ def replay_findings(chk):
                                         "slots": [e1, e2], "prog": p, "files": G.render_files(p)}, True)
     e = slot_of(witness_abs_over_proc(), "m", ["m", "a"], ("SVar", "p"))
     chk.known("abstract-interface-does-not-shadow-host-procedure", e == ["m", "x"])
+    e = slot_of(witness_sub_shadow(), "s1", ["s1"], ("SVar", "v"))
+    chk.known("submodule-declaration-does-not-shadow-host", e == ["m", "t"])
     prog = witness_unresolved_binding()
     _, _, problems = I.html_check(prog, G.render_files(prog))
     # repaired in /repo 1b07a9c (fixed: entry in known_findings.d/C07.json): reported again if it returns
@@ -329,7 +361,7 @@ def replay(chk, rep):
     chk.build(["theories/Corr/C07.vo"])
     R = Runner(chk)
     R.add("replay", prog)
-    terms = [coq_case(p["units"], u, obs) for _, p, u, _, obs in R.cases]
+    terms = [coq_case(p, u, obs) for _, p, u, _, obs in R.cases]
     res = chk.coq_judge(IMPORTS, "case", "judge", terms)
     print("judge codes:", res, "pending violations:", getattr(chk, "nviol", 0))
     return 1 if res or getattr(chk, "nviol", 0) else 0
@@ -349,5 +381,6 @@ def finish(chk):
         checker_cmd="make theories/Props/C07.vo && coqc theories/Props/C07.v (Print Assumptions)",
         assumptions=["use-associated names of a scope are an input of the model (property C06)",
                      "interface bodies are given host association (the generator writes IMPORT)",
-                     "submodule table inheritance, separate module procedures, generic bindings, namelists are "
-                     "outside the model"])
+                     "pairing of separate module procedures, generic bindings, namelists are outside the model; "
+                     "a submodule whose ancestor module is not in the project is generated empty (FORD drops its "
+                     "USE dependencies from the processing order)"])
